@@ -277,8 +277,10 @@ func TypesWith(c explore.Chooser, opt TypesOpt) *prog.Program {
 	}
 	host := s.Pick("slot.host", hosts...)
 	neighbourTag := s.Pick("union.neighbour-tag", "", "`json:\"name\"`", "`json:\"-\"`", "`json:\"n,omitempty\"`")
+	unionFieldTag := s.Pick("union.field-tag", "", "`json:\"-\"`", "`json:\"sh\"`", "`json:\"sh,omitempty\"`", "`gomacro:\"ignore\"`")
 	embedded := s.Pick("embedded", "none", "exported", "unexported", "tagged", "from-sub", "non-struct", "tagged-same-name", "tagged-omitempty")
-	style := s.Pick("decl.style", "separate", "grouped")
+	reexport := s.Pick("root-const-of-sub-enum", "no", "yes")
+	style := s.Pick("decl.style", "separate", "grouped", "same-line")
 	dartRoot := s.Pick("dart.root", "under-go-src", "outside-go-src")
 	secondFile := s.Pick("second-file", "no", "yes")
 
@@ -436,6 +438,11 @@ func TypesWith(c explore.Chooser, opt TypesOpt) *prog.Program {
 		embField = "\tCount\n"
 	}
 
+	if reexport == "yes" {
+		// the importing package declares a typed constant of an enum of the sub package
+		add("const DefaultKind = subpkg.Fancy")
+	}
+
 	// ---- slot
 	add(slot.declA)
 	b.WriteString(slot.declB)
@@ -454,7 +461,7 @@ func TypesWith(c explore.Chooser, opt TypesOpt) *prog.Program {
 	}
 	item := "type Item struct {\n" + embField +
 		"\tName  string " + neighbourTag + "\n" +
-		"\tSh    Shape\n" +
+		"\tSh    Shape " + unionFieldTag + "\n" +
 		"\tN     int\n" +
 		"\tCol   Color\n" +
 		contField + secondField +
@@ -547,6 +554,10 @@ func TypesWith(c explore.Chooser, opt TypesOpt) *prog.Program {
 		{Name: "a.go", Src: finish(rootName, a.String(), false)},
 		{Name: "b.go", Src: finish(rootName, b.String(), false)},
 	}}
+	if style == "same-line" {
+		// several declarations starting on one line, not in alphabetical order (legal, not gofmt'ed)
+		root.Files[0].RawTail = "type Zeta struct{ Z int }; type Alpha string\n\ntype ( Second int; First []Second )\n"
+	}
 	if secondFile == "yes" {
 		root.Files = append(root.Files, prog.File{Name: "c.go", Src: finish(rootName, cfile.String(), false)})
 		p.Analysed = append(p.Analysed, "c.go")
